@@ -153,6 +153,28 @@ pub fn c13_int_div_guarded(total: u64, n: u64) -> u64 {
     if n > 0 { total / n } else { 0 }
 }
 
+// ---- C13-R11: float-to-integer conversions that can panic --------------------------------------------------
+pub trait ToPrimitive {
+    fn to_u64(&self) -> Option<u64>;
+}
+impl ToPrimitive for f64 {
+    fn to_u64(&self) -> Option<u64> {
+        if *self >= 0.0 && *self < 1.8e19 { Some(*self as u64) } else { None }
+    }
+}
+
+pub fn c13_ratio_to_u64_unwrap(target: f64, step: f64) -> u64 {
+    (target / step).ceil().to_u64().unwrap()
+}
+
+pub fn c13_log2_to_u64_unwrap(steps: u64) -> u64 {
+    (steps as f64).log2().floor().to_u64().unwrap()
+}
+
+pub fn c13_ratio_to_u64_checked(target: f64, step: f64) -> u64 {
+    (target / step).ceil().to_u64().unwrap_or(0)
+}
+
 // ---- C13-R13: byte offsets into strings -------------------------------------------------------------------
 pub fn c13_string_truncate(mut message: String, n: usize) -> String {
     message.truncate(n);
